@@ -283,6 +283,8 @@ pub struct CollectionV3 {
     no_samples_in_last_batch: usize,
     /// Cumulative count of samples loaded from batches (for multi-batch archives)
     samples_loaded: usize,
+    /// Number of contig batches already loaded (batches are loaded in order)
+    contig_batches_loaded: usize,
 
     // For in_group_id delta encoding
     in_group_ids: Vec<i32>,
@@ -310,6 +312,7 @@ impl CollectionV3 {
             placing_sample_id: 0,
             no_samples_in_last_batch: 0,
             samples_loaded: 0,
+            contig_batches_loaded: 0,
             in_group_ids: Vec::new(),
         }
     }
@@ -1086,6 +1089,13 @@ impl CollectionV3 {
     /// Load a batch of contigs (names + details)
     #[allow(clippy::needless_range_loop)]
     pub fn load_contig_batch(&mut self, archive: &mut Archive, id_batch: usize) -> Result<()> {
+        // Loading is idempotent: a batch that was already loaded is not appended a second
+        // time (callers reload "all batches" whenever a lookup misses, e.g. for an unknown
+        // sample name, and the cumulative cursor below must not run past the sample table).
+        if id_batch < self.contig_batches_loaded {
+            return Ok(());
+        }
+
         // Use cumulative samples_loaded counter, NOT id_batch * batch_size
         // C++ AGC creates batches of ~50 samples, but batch_size defaults to 1M which is wrong
         let i_sample = self.samples_loaded;
@@ -1151,6 +1161,7 @@ impl CollectionV3 {
 
         // Update cumulative counter for next batch
         self.samples_loaded += self.no_samples_in_last_batch;
+        self.contig_batches_loaded = id_batch + 1;
 
         Ok(())
     }
